@@ -1,13 +1,30 @@
-(* C14 - Dependency fields parse to exactly the structure they spell (partial: the
-   theorems cover one alternative - name, optional "(operator version)", optional
-   "[architectures]" - under every white-space layout, its canonical spelling, the
-   round trip and the error clauses; the splitting of a field at commas and of a group
-   at "|" is decided by co-execution on rendered abstract fields). *)
+(* C14 - Dependency fields parse to exactly the structure they spell (partial: proved for
+   whole fields - comma-separated groups of "|"-separated alternatives, arbitrary white space,
+   line breaks included, around every alternative and inside its parentheses and brackets - that
+   parsing yields exactly the groups and alternatives in order with their names, operators,
+   versions and architectures, and that the reported names are exactly those mentioned; proved
+   for one alternative: canonical spelling, round trip through the string form, ValueError for
+   a clause without operator or with nothing but an operator.  NOT proved: the round trip of the
+   string form of a whole field, and the more-than-one-operator error clause; decided by
+   co-execution on rendered abstract fields). *)
 From Coq Require Import String.
 From Coq Require Import NArith List Bool.
-From DI Require Import Result PyStr Deps DepsGrammar DepsParseFacts.
+From DI Require Import Result PyStr Deps DepsGrammar DepsParseFacts DepsFieldFacts.
 Import ListNotations.
 Open Scope N_scope.
+
+(* a whole field: groups joined by ",", alternatives joined by "|", every alternative rendered
+   under any layout and surrounded by any white space *)
+Theorem C14_parse_rendered_field : forall f, wf_field f ->
+  parse_depends (render_field f) = Ok (AndRel (map tree_group f)).
+Proof. exact parse_field. Qed.
+Print Assumptions C14_parse_rendered_field.
+
+Theorem C14_field_names : forall f,
+  rel_names (AndRel (map tree_group f)) = flat_map (fun g => map (fun r => g_name (r_alt r)) g) f.
+Proof. exact names_field. Qed.
+Print Assumptions C14_field_names.
+
 
 (* any well-formed alternative, rendered with any layout (spaces before "(" and "[", any white
    space - line breaks included - inside the parentheses and brackets, the operator glued to
@@ -57,4 +74,17 @@ Example C14_whole_field :
   Ok (AndRel [VRel (lit "libc6") (lit ">=") (lit "2.17") [];
               OrRel [VRel (lit "python3:any") (lit "<<") (lit "3.12~") [lit "!i386"; lit "linux-any"]; Rel (lit "python") []];
               Rel (lit "g++") []]).
+Proof. vm_compute. reflexivity. Qed.
+
+(* a concrete field meets the hypotheses *)
+Example C14_nonvacuous_field :
+  let l0 := mkLayout [] [] [] [] [] [] [] [] in
+  let a1 := mkAlt (lit "libc6") (Some (lit ">=", lit "2.4")) [] in
+  let a2 := mkAlt (lit "foo:any") None [lit "!i386"; lit "amd64"] in
+  let a3 := mkAlt (lit "bar") (Some (lit "<<", lit "1:2~rc1-1")) [] in
+  parse_depends (render_field [[mkRalt [] (mkLayout [32] [] [32] [] [] [] [] []) a1 [32];
+                                 mkRalt [32] (mkLayout [] [] [] [] [32] [] [[32]] []) a2 []];
+                                [mkRalt [10; 32] (mkLayout [32] [32] [] [9] [] [] [] []) a3 [32]]]) =
+  Ok (AndRel [OrRel [VRel (lit "libc6") (lit ">=") (lit "2.4") []; Rel (lit "foo:any") [lit "!i386"; lit "amd64"]];
+              VRel (lit "bar") (lit "<<") (lit "1:2~rc1-1") []]).
 Proof. vm_compute. reflexivity. Qed.
